@@ -226,8 +226,12 @@ def _shard_main(mod, args):
 
 
 def _replay_main(mod, args):
-    with open(args.replay) as f:
-        rp = json.load(f)
+    if args.case:
+        rp = {'case': json.loads(args.case), 'tier': args.tier, 'seed': args.seed}
+        args.replay = '<inline case>'
+    else:
+        with open(args.replay) as f:
+            rp = json.load(f)
     run = Run(mod.PID, mod.LEVEL, tier=rp.get('tier', 'quick'), seed=rp.get('seed', 0))
     run.replaying = True
     try:
@@ -243,7 +247,8 @@ def _replay_main(mod, args):
             print("witness:", json.dumps(v['mech'], default=str), v['detail'][:1500])
         print("VIOLATION property=%s replay=%s" % (mod.PID, args.replay))
         sys.exit(1)
-    print("replay: no violation reproduced (evaluations=%d)" % run.evaluations)
+    print("replay: no violation reproduced (evaluations=%d monitors=%s dont_care=%s)" % (
+        run.evaluations, dict(run.monitors), dict(run.dont_care)))
     sys.exit(0)
 
 
@@ -252,6 +257,7 @@ def main(mod):
     ap.add_argument('--tier', default=os.environ.get('VERIF_TIER', 'quick'), choices=['quick', 'thorough'])
     ap.add_argument('--seed', type=int, default=int(os.environ.get('VERIF_SEED', '0') or 0))
     ap.add_argument('--replay')
+    ap.add_argument('--case', help='JSON of one case to execute (debugging)')
     ap.add_argument('--shard', type=int)
     ap.add_argument('--nshards', type=int, default=1)
     ap.add_argument('--budget', type=float, default=0)
@@ -259,7 +265,7 @@ def main(mod):
     ap.add_argument('--jobs', type=int, default=int(os.environ.get('VERIF_JOBS', '0') or 0))
     args = ap.parse_args()
     use_repo()
-    if args.replay:
+    if args.replay or args.case:
         return _replay_main(mod, args)
     if args.shard is not None:
         return _shard_main(mod, args)
